@@ -841,15 +841,19 @@ func createAssociationFromConfigWithTsn(cfg *Config, tsn uint32) *Association {
 		handshakeCompletedCh:    make(chan error),
 		cumulativeTSNAckPoint:   tsn - 1,
 		advancedPeerTSNAckPoint: tsn - 1,
-		recvZeroChecksum:        cfg.EnableZeroChecksum,
-		localInterleaving:       cfg.enableInterleaving,
-		silentError:             ErrSilentlyDiscard,
-		stats:                   &associationStats{},
-		log:                     cfg.LoggerFactory.NewLogger("sctp"),
-		name:                    cfg.Name,
-		blockWrite:              cfg.BlockWrite,
-		writeNotify:             make(chan struct{}, 1),
-		abortSentCh:             make(chan struct{}),
+		// nothing has been delivered yet: start the RACK reordering
+		// high-water mark just below the first TSN instead of at the absolute
+		// value 0, which lies "ahead" of about half of all initial TSNs.
+		rackHighestDeliveredOrigTSN: tsn - 1,
+		recvZeroChecksum:            cfg.EnableZeroChecksum,
+		localInterleaving:           cfg.enableInterleaving,
+		silentError:                 ErrSilentlyDiscard,
+		stats:                       &associationStats{},
+		log:                         cfg.LoggerFactory.NewLogger("sctp"),
+		name:                        cfg.Name,
+		blockWrite:                  cfg.BlockWrite,
+		writeNotify:                 make(chan struct{}, 1),
+		abortSentCh:                 make(chan struct{}),
 	}
 
 	// adaptive burst mitigation defaults
